@@ -434,7 +434,17 @@ type subCheck[C any] struct {
 	lastV    Verdict
 }
 
-func newSub[C any](pid, sub string, run func(C) Verdict) *subCheck[C] {
+func newSub[C any](pid, sub string, run0 func(C) Verdict) *subCheck[C] {
+	// every case runs under unrelated server settings derived from the case
+	// itself (harness.SetAmbient): long timeouts, a Debug writer
+	run := func(c C) Verdict {
+		if cj, err := json.Marshal(c); err == nil {
+			harness.SetAmbient(int(hashJSON("ambient", cj) % 8))
+		}
+		v := run0(c)
+		harness.SetAmbient(0)
+		return v
+	}
 	s := &subCheck[C]{pid: pid, sub: sub, run: run}
 	replayers[pid+"/"+sub] = func(raw json.RawMessage) Verdict {
 		var c C
